@@ -87,6 +87,7 @@ def gen(seed, tier):
             "demand": rng.choice([1.0, 3.0, 8.0, 20.0]),
         }
     # environment script
+    near_values = kind == "buffer" and rng.random() < 0.2
     nops = rng.randint(0, 10)
     horizon = sc["start"] + periods * interval
     for _ in range(nops):
@@ -109,6 +110,9 @@ def gen(seed, tier):
         op = {"t": t, "what": what}
         if what in ("write", "outside-demand"):
             op["value"] = rng.choice([0.0, 1.0, 2.0, 5.0, 8.0, 10.0, 64.0])
+            if near_values:
+                # values that differ in the last bits only: still different values
+                op["value"] = rng.choice([0.3, 0.1 + 0.2, 1000.0, 1000.0000000001, 1e6, 1e6 + 1e-4, 1e12, 1e12 + 1.0, 64.0, 64.00000000000001])
         elif what == "state":
             op["attr"] = rng.choice(["supply", "utilisation", "allocation"])
             op["value"] = rng.choice(FRACTIONS) if op["attr"] != "supply" else rng.choice([0.0, 1.0, 2.0, 4.0, 8.0, 16.0, 50.0, 100.0])
